@@ -148,6 +148,16 @@ func genC04Case(t *rapid.T) C04Case {
 	c.Spec = spec
 	c.Noise = rapid.IntRange(0, 2).Draw(t, "noise") == 0
 	c.Rotate = rapid.IntRange(0, 3).Draw(t, "rotate") == 0
+	switch rapid.IntRange(0, 11).Draw(t, "big") {
+	case 0:
+		c.Spec.Users[0].Custom = append(c.Spec.Users[0].Custom, world.CustomAttr{Name: "groups-big", Values: bigValues(rapid.SampledFrom([]int{150, 400}).Draw(t, "nbig"), "c04")})
+	case 1:
+		c.Spec.Users[0].Custom = append(c.Spec.Users[0].Custom, world.CustomAttr{Name: "blob-big", Values: []string{bigString(12000, "c04-")}})
+	}
+	if rapid.IntRange(0, 9).Draw(t, "keyfault") == 0 {
+		// the storage hands out a certificate that belongs to another key (half-finished roll-over): nothing signed with it may leave as Success
+		c.Spec.Faults = []world.Fault{{Op: "GetResponseSigningKey", Occurrence: 0, Kind: "mismatch"}}
+	}
 	return c
 }
 
